@@ -19,6 +19,9 @@ Rule family R13 (descriptor typestate, slot flow, hook order):
  (e) unpack builds the instance without initialising fields and nothing but
      __set__ / __delete__ writes the enabled flag.
 The value of the user's function is not decided.
+
+Round 4: (R13-copies-keep-state) Packet defines no copy / pickle protocol method that rebuilds
+the packet from its field values.
 """
 import ast
 
